@@ -171,6 +171,7 @@ def main():
     rules = {}
     slices = []
     dropped = []
+    lifted = []
     samples = []
     smt_ms = 0
     checker_cmds = []
@@ -230,6 +231,7 @@ def main():
         for sl in r.get('meta', {}).get('slices', []):
             slices.append('%s :: %s sha256=%s' % (sl['file'], sl['path'], sl['sha256'][:16]))
         dropped += ['%s: %s' % (u, d) for d in r.get('meta', {}).get('dropped_statements', [])]
+        lifted += ['%s: %s' % (u, d) for d in r.get('lifted', [])]
         for t in r.get('trust', []):
             trusted.append('%s: %s %s' % (u, t['kind'], t['decl']))
         seen_obl = set()
@@ -374,6 +376,7 @@ def main():
         'extraction_rules_applied': rules,
         'extracted_slices': slices[:200],
         'dropped_statements_unchecked': dropped[:80],
+        'helpers_inlined_or_constants_lifted_R17': sorted(set(lifted))[:60],
         'vacuity_twin': vacuity_report,
         'explanation': info['explanation'],
         'known_findings_hit': [k['what_fails'] for k, _ in known_hits],
